@@ -70,9 +70,24 @@ SetToSortedSeq(Sx) == IF Sx = {} THEN <<>>
 (*           bounds (VirtualReaderParams.ConstrainBounds): the caller (levelIter)    *)
 (*           seeks a file only with keys that do not lie beyond the file's bounds in *)
 (*           the direction of the seek                                               *)
-NewIt(lo, hi) == [lo |-> lo, hi |-> hi, slo |-> lo, shi |-> hi, st |-> "unpos", pos |-> 0, pfx |-> -1, fwd |-> TRUE, sk |-> 0, sko |-> "none"]
+(*   rb    : the iterator was re-bound with SetBounds since it was created (used only   *)
+(*           by the seeded bug ReuseUpperInclusive: the model itself does not depend on *)
+(*           it - reuse of an iterator is not observable)                               *)
+NewIt(lo, hi) == [lo |-> lo, hi |-> hi, slo |-> lo, shi |-> hi, st |-> "unpos", pos |-> 0, pfx |-> -1, fwd |-> TRUE, sk |-> 0, sko |-> "none",
+                  rb |-> FALSE]
 
-UpOK(L, it, i) == i <= Len(L) /\ i >= 1 /\ (IF Bug = "UpperInclusive" THEN L[i][1] <= it.hi ELSE L[i][1] < it.hi)
+(* InternalIterator.SetBounds(lower, upper) on an iterator that is being reused            *)
+(* (singleLevelIterator.SetBounds, mergingIter.SetBounds, levelIter.SetBounds): "the       *)
+(* result of Next and Prev will be undefined until the iterator has been repositioned      *)
+(* with SeekGE, SeekPrefixGE, SeekLT, First, or Last".  Whatever the implementation keeps  *)
+(* across the call (loaded block, boundsCmp for monotonically moving bounds, the file a    *)
+(* levelIter has open) must not be observable: the re-bound iterator is a new iterator.    *)
+(* TrySeekUsingNext may not refer to a seek made under the previous bounds.                *)
+SetBOK(lo, hi) == lo >= 0 /\ hi <= R /\ lo < hi
+SetB(it, lo, hi) == [NewIt(lo, hi) EXCEPT !.rb = TRUE]
+
+UpOK(L, it, i) == i <= Len(L) /\ i >= 1 /\ (IF Bug = "UpperInclusive" \/ (Bug = "ReuseUpperInclusive" /\ it.rb)
+                                             THEN L[i][1] <= it.hi ELSE L[i][1] < it.hi)
 LoOK(L, it, i) == i >= 1 /\ i <= Len(L) /\ (IF Bug = "LowerExclusive" THEN L[i][1] > it.lo ELSE L[i][1] >= it.lo)
 
 FwdTo(L, it, i) == IF UpOK(L, it, i)
@@ -193,6 +208,8 @@ SuffixPre(L, ssuf) == /\ \A i, j \in 1..Len(L) : i # j => PfxOf(L[i][1]) # PfxOf
 (* (VirtualReaderParams.ConstrainBounds); an inclusive upper bound is rank + 1   *)
 VUp(vp) == IF vp.vhiincl THEN vp.vhi + 1 ELSE vp.vhi
 NewItV(lo, hi, vp) == [NewIt(Max2(lo, vp.vlo), Min2(hi, VUp(vp))) EXCEPT !.slo = lo, !.shi = hi]
+(* SetBounds on an iterator over a virtual table constrains the new bounds the same way *)
+SetBV(it, lo, hi, vp) == [NewItV(lo, hi, vp) EXCEPT !.rb = TRUE]
 
 (* CopySpan (sstable/copier.go): output contains every input entry inside the    *)
 (* span and only input entries, in order                                         *)
@@ -225,10 +242,21 @@ MergedVisible(levels, snap) == SetToSortedSeq(MergedSet(levels, snap))
 (* a key of level j is deleted by a tombstone of a *higher* level i < j when the   *)
 (* tombstone is visible, and by a tombstone of its own level when the tombstone    *)
 (* is visible and newer than the key                                               *)
+(* The mechanism sees a level's tombstones as fragments (keyspan.Span with several   *)
+(* keys, newest first): Span.VisibleAt(snap) = some key is visible; Span.CoversAt(snap, *)
+(* seq) = the newest *visible* key is newer than seq.  Bug CoversNewest compares with   *)
+(* the newest key whether visible or not (Span.Covers).                                 *)
+LevelFrags(lv) == UNION {{lv[a].rd[i] : i \in 1..Len(lv[a].rd)} : a \in 1..Len(lv)}
+SpanHas(f, k) == f[1] <= k /\ k < f[2]
+SpanVisibleAt(f, snap) == \E i \in 1..Len(f[3]) : f[3][i] < snap
+SpanCoversAt(f, snap, s) == \E i \in 1..Len(f[3]) : f[3][i] < snap /\ f[3][i] > s
+SpanCovers(f, s) == f[3][1] > s
 ByLevelSet(levels, snap) ==
   UNION {{e \in LevelPts(levels[j]) : VisibleAt(e, snap) /\
-            ~ \/ \E i \in 1..(j - 1) : \E t \in LevelRds(levels[i]) : t[3] < snap /\ t[1] <= e[1] /\ e[1] < t[2]
-              \/ \E t \in LevelRds(levels[j]) : Shadows(t, e, snap)} : j \in 1..Len(levels)}
+            ~ \/ \E i \in 1..(j - 1) : \E f \in LevelFrags(levels[i]) : SpanHas(f, e[1]) /\ SpanVisibleAt(f, snap)
+              \/ \E f \in LevelFrags(levels[j]) : /\ SpanHas(f, e[1]) /\ SpanVisibleAt(f, snap)
+                                                     /\ (IF Bug = "CoversNewest" THEN SpanCovers(f, e[2])
+                                                         ELSE SpanCoversAt(f, snap, e[2]))} : j \in 1..Len(levels)}
 
 (* LSM level invariant (internal/manifest: CheckOrdering / the "level invariant"   *)
 (* of DESIGN C15) on this input form: files of a level are ordered and disjoint;   *)
